@@ -62,12 +62,19 @@ def rank_case(draw, tier):
     n = draw(st.integers(2, 40 if big else 10))
     m = draw(st.integers(1, 20 if big else 6))
     regime = draw(st.sampled_from(["random", "random", "identical", "single",
-                                   "ordered", "reversed"]))
+                                   "ordered", "reversed", "zero-spread"]))
     if regime == "single":
         m = 1
     lat = st.integers(-6, 6)
     if regime in ("random", "single"):
         sim = [[draw(lat) / 2 for _ in range(m)] for _ in range(n)]
+    elif regime == "zero-spread":
+        # every forecast issues one value for all its members (dry spells,
+        # deterministic forecasts copied into m columns), with ties between
+        # forecasts
+        m = max(m, 2)
+        vals = [draw(st.integers(-2, 2)) / 2 for _ in range(n)]
+        sim = [[v] * m for v in vals]
     elif regime == "identical":
         rows = [[draw(lat) / 2 for _ in range(m)]
                 for _ in range(draw(st.integers(1, 2)))]
